@@ -262,7 +262,7 @@ class Ctx:
                 c.get('traces', c.get('evaluations', 0))),
             'evaluations': int(c.get('evaluations', c.get('transitions', 0))),
             'distinct_nontrivial': int(c.get('nontrivial', 0)),
-            'distinct_outcomes': len(self.total.outcomes),
+            'distinct_outcomes': len(self.total.outcomes) or int(c.get('states', 0)),
             'rule': self.rule,
             'samples': self.total.samples or ['(none)'],
             'exhaustive': bool(self.exhaustive),
